@@ -133,9 +133,9 @@ Proof.
   simpl. simpl in IH. rewrite IH. reflexivity.
 Qed.
 
-Lemma guard_union : forall ms s, c14_guard rt (HUnion ms) s = forallb (fun m => c14_guard rt m s) ms.
+Lemma guard_union : forall ms, c14_guard (HUnion ms) = forallb c14_guard ms.
 Proof.
-  intros ms s. induction ms as [|m r IH]; [reflexivity|].
+  intros ms. induction ms as [|m r IH]; [reflexivity|].
   simpl. simpl in IH. rewrite IH. reflexivity.
 Qed.
 
@@ -160,22 +160,25 @@ Lemma list_N_eqb_true : forall a b, list_N_eqb a b = true -> a = b.
 Proof. intros a b. unfold list_N_eqb. destruct (list_eq_dec N.eq_dec a b); [auto|discriminate]. Qed.
 
 Lemma entry_literal_carrier : forall vals k s, encodable s = true ->
-  c14_guard rt (HLiteral vals) s = true ->
+  forallb no_bin_value vals = true ->
   entry rt rest whole sup (HLiteral vals) (carrier rt k s) = entry rt rest whole sup (HLiteral vals) (PStr s).
 Proof.
-  intros vals k s He Hg. destruct k; try reflexivity;
-    cbn [carrier]; unfold entry; cbn [entry_gen];
-    cbn [c14_guard] in Hg; apply andb_prop in Hg; destruct Hg as [Hnb Hg];
+  intros vals k s He Hnb. pose proof (decode_carrier k s He) as Hd.
+  pose proof (load_carrier k s He) as Hl. unfold load in Hl.
+  destruct k; try reflexivity; cbn [carrier] in *; unfold entry; cbn [entry_gen];
     rewrite in_values_bin_false by first [reflexivity | exact Hnb];
-    (match goal with |- context [load_gen rt true (PText ?k ?p)] =>
-       change (load_gen rt true (PText k p)) with (load rt (carrier rt k s)) end);
-    rewrite (load_carrier _ s He);
-    (destruct (in_values (PStr s) vals) eqn:Ein; [| reflexivity]);
-    cbn [negb orb] in Hg; change (load_gen rt true (PStr s)) with (load rt (PStr s));
-    (destruct (load rt (PStr s)) as [d|e]; [| discriminate Hg]);
-    (destruct d as [ | | | | | k2 q | | | | | ]; try discriminate Hg);
-    (destruct k2; try discriminate Hg);
-    apply list_N_eqb_true in Hg; subst q; cbn [bind]; rewrite Ein; reflexivity.
+    rewrite Hd, Hl; cbn [bind];
+    (destruct (in_values (PStr s) vals) eqn:Ein; [reflexivity|]);
+    unfold decode, decode_text; cbn [tobytes bind]; rewrite Ein; reflexivity.
+Qed.
+
+(* the text of a str member is that member, in every carrier *)
+Lemma literal_member_carriers : forall vals k s, encodable s = true ->
+  forallb no_bin_value vals = true -> in_values (PStr s) vals = true ->
+  entry rt rest whole sup (HLiteral vals) (carrier rt k s) = Ok (PStr s).
+Proof.
+  intros vals k s He Hnb Hin. rewrite (entry_literal_carrier vals k s He Hnb).
+  unfold entry. cbn [entry_gen]. rewrite Hin. reflexivity.
 Qed.
 
 Lemma entry_enum_carrier : forall k s, encodable s = true ->
@@ -187,10 +190,10 @@ Proof.
     rewrite Hd, Hl; unfold decode_text; cbn [tobytes]; reflexivity.
 Qed.
 
-Lemma entry_carrier : forall h k s, encodable s = true -> c14_guard rt h s = true ->
+Lemma entry_carrier : forall h k s, encodable s = true -> c14_guard h = true ->
   entry rt rest whole sup h (carrier rt k s) = entry rt rest whole sup h (PStr s).
 Proof.
-  intros h k s He. revert h. apply (head_ind' (fun h => c14_guard rt h s = true ->
+  intros h k s He. revert h. apply (head_ind' (fun h => c14_guard h = true ->
     entry rt rest whole sup h (carrier rt k s) = entry rt rest whole sup h (PStr s))).
   - intros h Hnu Hg. pose proof (decode_text_carrier k s He) as Hd.
     pose proof (load_carrier k s He) as Hl.
@@ -276,26 +279,18 @@ Proof.
   split; [exact toy_laws|]. vm_compute. repeat split; try reflexivity. intros H; discriminate H.
 Qed.
 
-(* ... and on pinned and repaired code alike for a Literal that has the text itself as a member *)
-Lemma refuted_literal :
-  exists (rt : Runtime) (rest whole : head -> pv -> res pv) (sup : exn -> bool) (vals : list pv) (s : str),
-    RuntimeLaws rt /\ encodable s = true /\ forallb no_bin_value vals = true /\
-    entry rt rest whole sup (HLiteral vals) (PStr s) = Ok (PStr s) /\
-    entry rt rest whole sup (HLiteral vals) (carrier rt CBytes s) = Raise EValue /\
-    entry_pinned rt rest whole sup (HLiteral vals) (PStr s) = Ok (PStr s) /\
-    entry_pinned rt rest whole sup (HLiteral vals) (carrier rt CBytes s) = Raise EValue.
-Proof.
-  exists toy_rt, toy_rest, toy_whole, union_suppressed_pinned, [PStr t_one], t_one.
-  split; [exact toy_laws|]. vm_compute. repeat split; reflexivity.
-Qed.
+Lemma load_first_guard : forall h, load_first h = true -> c14_guard h = true.
+Proof. intros h H. destruct h; try discriminate H; reflexivity. Qed.
 
-Lemma full_refuted : ~ C14_full true /\ ~ C14_full false.
+(* the full statement: holds for the repaired code, fails without the strload repair *)
+Lemma full_holds : C14_full true.
+Proof. intros rt L rest whole sup h k s Hg He. exact (entry_carrier rt L rest whole sup h k s He Hg). Qed.
+
+Lemma full_pinned_refuted : ~ C14_full false.
 Proof.
-  destruct refuted_literal as (rt & rest & whole & sup & vals & s & L & He & _ & H1 & H2 & H3 & H4).
-  unfold entry in H1, H2. unfold entry_pinned in H3, H4.
-  split; intros F; specialize (F rt L rest whole sup (HLiteral vals) CBytes s eq_refl He).
-  - rewrite H1, H2 in F. discriminate F.
-  - rewrite H3, H4 in F. discriminate F.
+  destruct refuted_bytearray as (rt & rest & whole & sup & h & s & L & He & Hh & _ & _ & _ & Hne).
+  intros F. apply Hne. unfold entry_pinned.
+  exact (F rt L rest whole sup h CBytearray s (load_first_guard h Hh) He).
 Qed.
 
 (* the pinned strload lets MemoryError / RecursionError of literal_eval escape *)
@@ -312,9 +307,12 @@ Proof.
 Qed.
 
 (* non-vacuity instances *)
-Lemma toy_guard_union : c14_guard toy_rt (HUnion [HNumber; HLiteral [PStr t_abc; PInt 1]; HSubIterable]) t_list12 = true.
+Lemma toy_guard_union : c14_guard (HUnion [HNumber; HLiteral [PStr t_abc; PInt 1]; HSubIterable]) = true.
 Proof. vm_compute. reflexivity. Qed.
 Lemma toy_json_text : json_loads_str toy_rt (json_dumps toy_rt v_list12) = Ok v_list12.
 Proof. vm_compute. reflexivity. Qed.
 Lemma toy_plain : json_loads_str toy_rt t_abc = Raise EValue /\ literal_eval toy_rt t_abc = Raise ESyntax.
 Proof. vm_compute. split; reflexivity. Qed.
+Lemma toy_literal_member : forallb no_bin_value [PStr t_one; PInt 1] = true /\ in_values (PStr t_one) [PStr t_one; PInt 1] = true /\
+  load toy_rt (PStr t_one) = Ok (PInt 1).
+Proof. vm_compute. repeat split; reflexivity. Qed.
